@@ -35,7 +35,9 @@ func handleSubscribe(params internal.HandlerFuncParams) ([]byte, error) {
 	}
 
 	withPattern := strings.EqualFold(params.Command[0], "psubscribe")
-	pubsub.Subscribe(params.Context, params.Connection, channels, withPattern)
+	if err := pubsub.Subscribe(params.Context, params.Connection, channels, withPattern); err != nil {
+		return nil, err
+	}
 
 	return nil, nil
 }
@@ -80,7 +82,7 @@ func handlePubSubChannels(params internal.HandlerFuncParams) ([]byte, error) {
 		pattern = params.Command[2]
 	}
 
-	return pubsub.Channels(pattern), nil
+	return pubsub.Channels(pattern)
 }
 
 func handlePubSubNumPat(params internal.HandlerFuncParams) ([]byte, error) {
